@@ -30,10 +30,20 @@ def _default_signals():
             pass
 
 
-def run_n2(n2, d, args, timeout=120):
-    p = subprocess.run([n2] + args, cwd=d, stdout=subprocess.PIPE, stderr=subprocess.PIPE, stdin=subprocess.DEVNULL,
-                       timeout=timeout, env=ENV, preexec_fn=_default_signals)
-    return p.returncode, p.stdout, p.stderr
+def run_n2(n2, d, args, timeout=120, env=None):
+    """rc 124 = n2 did not finish within the time limit (killed with its process group)"""
+    p = subprocess.Popen([n2] + args, cwd=d, stdout=subprocess.PIPE, stderr=subprocess.PIPE, stdin=subprocess.DEVNULL,
+                         env=env or ENV, preexec_fn=lambda: (_default_signals(), os.setsid()))
+    try:
+        so, se = p.communicate(timeout=timeout)
+        return p.returncode, so, se
+    except subprocess.TimeoutExpired:
+        try:
+            os.killpg(p.pid, signal.SIGKILL)
+        except OSError:
+            pass
+        so, se = p.communicate()
+        return 124, so, se + b"\n<did not finish within %d s>" % timeout
 
 
 NOTE_PREFIX = b"Note: including file: "
@@ -347,7 +357,7 @@ def main(tier, seed, replay=None):
             nsteps = rng.randint(1, 6)
             lines = ["rule probe",
                      "  command = tr '\\0' '\\n' < /proc/$$$$/cmdline > $out.argv; pwd > $out.cwd; readlink /proc/self/fd/0 > $out.stdin; "
-                     "ls -l /proc/self/fd > $out.fds; cat $out.rsp > $out; # $text",
+                     "ls -l /proc/self/fd > $out.fds; readlink /proc/$$$$/exe > $out.exe; cat $out.rsp > $out; # $text",
                      "  rspfile = $out.rsp", "  rspfile_content = $content"]
             expect = []
             for si in range(nsteps):
@@ -357,11 +367,20 @@ def main(tier, seed, replay=None):
                 lines += ["build %s: probe" % outp, "  text = %s" % ninja_escape(text).replace("\n", " "),
                           "  content = %s" % ninja_escape(content)]
                 cmd = ("tr '\\0' '\\n' < /proc/$$/cmdline > %s.argv; pwd > %s.cwd; readlink /proc/self/fd/0 > %s.stdin; "
-                       "ls -l /proc/self/fd > %s.fds; cat %s.rsp > %s; # %s" % (outp, outp, outp, outp, outp, outp, text))
+                       "ls -l /proc/self/fd > %s.fds; readlink /proc/$$/exe > %s.exe; cat %s.rsp > %s; # %s" % (outp, outp, outp, outp, outp, outp, outp, text))
                 expect.append((outp, cmd, content))
             open(os.path.join(d, "build.ninja"), "w").write("\n".join(lines) + "\n")
             j = rng.choice([1, 2, 4, 8])
-            rc, so, se = run_n2(n2, d, ["-j", str(j)])
+            # every other project: a directory with its own `sh` comes first on PATH (and "." too); the interpreter is /bin/sh all the same
+            env = None
+            if pi % 2 == 1:
+                fake = os.path.join(d, "fakebin")
+                os.makedirs(fake)
+                for f in (os.path.join(fake, "sh"), os.path.join(d, "sh")):
+                    open(f, "w").write("#!/bin/sh\necho hijacked >> %s\nexec /bin/sh \"$@\"\n" % os.path.join(d, "hijack.log"))
+                    os.chmod(f, 0o755)
+                env = dict(ENV, PATH=fake + "::" + ENV.get("PATH", "/usr/bin:/bin"))
+            rc, so, se = run_n2(n2, d, ["-j", str(j)], env=env)
             stats["projects"] += 1
             where = {"manifest": "\n".join(lines), "j": j, "stdout": so.decode("utf-8", "replace")[-600:], "rc": rc}
             if rc != 0:
@@ -378,6 +397,12 @@ def main(tier, seed, replay=None):
                 except OSError as e:
                     run.report_failure(None, "probe output missing: %s" % e, where)
                     continue
+                try:
+                    exe = open(os.path.join(d, outp + ".exe")).read().strip()
+                except OSError:
+                    exe = ""
+                if exe != os.path.realpath("/bin/sh") or os.path.exists(os.path.join(d, "hijack.log")):
+                    run.report_failure(None, "the command was interpreted by %r (PATH starts with a directory that has its own sh), not by /bin/sh" % exe, where)
                 if argv[:3] != ["/bin/sh", "-c", cmd]:
                     run.report_failure(None, "command was not run as /bin/sh -c <evaluated string>: %r vs %r" % (argv[:3], cmd), where)
                 if os.path.realpath(cwd) != os.path.realpath(d):
@@ -439,8 +464,11 @@ def main(tier, seed, replay=None):
             lines.append("build all: touch " + " ".join("out%d" % i for i in range(len(tasks))))
             open(os.path.join(d, "build.ninja"), "w").write("\n".join(lines) + "\n")
             j = rng.choice([1, 3, 8, 16])
-            rc, so, se = run_n2(n2, d, ["-j", str(j), "out0"] + ["out%d" % i for i in range(1, len(tasks))])
+            rc, so, se = run_n2(n2, d, ["-j", str(j), "out0"] + ["out%d" % i for i in range(1, len(tasks))], timeout=60)
             where = {"manifest": "\n".join(lines), "j": j, "rc": rc, "stdout_len": len(so)}
+            if rc == 124:
+                run.report_failure(None, "n2 did not terminate within 60 s on commands writing up to %d bytes of output" % max(n for _, n in tasks), where)
+                continue
             text = so.decode("latin-1")
             for ch, n in tasks:
                 stats["output_blocks"] += 1
